@@ -30,3 +30,6 @@ package checks
 //@ func iface RChecks.IsCheckUsed
 //@   ensures checkHash(arg0) in as(recv, "*Checks").usedChecks ==> result
 //@   modifies nothing
+
+//@ # ---------------------------------------------------------------- lock discipline (C25)
+//@ guarded Checks.usedChecks by lock
